@@ -40,7 +40,8 @@ EXPLANATION = "see DESIGN.md C01"
 
 
 def run(run):
-    from props._std import run_bounded
+    from props._std import run_bounded, run_lean
 
     run.prove(PROVE)
+    run_lean(run)
     run_bounded(run, "C01")
